@@ -54,7 +54,7 @@ CLAIMED['C12'] = dict(
    design='5 C12')
 CLAIMED['C10'] = dict(
    category='proof',
-   text="FRAGMENT, proved on EVERY continuation of connect_op (emitted from connect_op<tcp::socket, noop_logger>; environment recorded by ghost counters): after the TCP connect the first and only packet written before a reply is one CONNECT built by encode_connect from exactly the context's client id, username, password, keep-alive, CONNECT properties and Will with Clean Start = false; with a configured authenticator nothing is written before its initial data is known and the CONNECT carries it; a cancelled operation completes with operation_aborted and writes nothing; a failed transport step is reported; after the CONNECT exactly the 5-byte fixed header is awaited in a buffer of at least 5 bytes; the handshake completes with success ONLY from a decodable CONNACK whose reason code is listed for CONNACK and equals 0 (or, with an authenticator, after its accepted final step); an undecodable CONNACK or a reason code not allowed in CONNACK -> malformed_packet, a refusal (>= 0x80) -> try_again, a failed read/write -> that error: in each case the stream is shut down and the operation completes with that non-success code (never success); AUTH packets are admitted only with a configured method, a listed AUTH reason code and the same method, and answered by one AUTH 0x18. exponential_backoff::generate returns 2^min(k,4)*1000 ms +-500 ms for its k-th call, hence always within [0.5 s, 16.5 s]; handshake framing (C19 unit). NOT built: reconnect_op (5 s handshake timer, host rotation, backoff only at wrap-around, stream swap after success), endpoints; NOT decided: 'no other packet before CONNACK' across the client (queued traffic gating is reconnect_op/async_sender ordering over schedules).",
+   text="FRAGMENT, proved on EVERY continuation of connect_op (emitted from connect_op<tcp::socket, noop_logger>; environment recorded by ghost counters): after the TCP connect the first and only packet written before a reply is one CONNECT built by encode_connect from exactly the context's client id, username, password, keep-alive, CONNECT properties and Will with Clean Start = false; with a configured authenticator nothing is written before its initial data is known and the CONNECT carries it; a cancelled operation completes with operation_aborted and writes nothing; a failed transport step is reported; after the CONNECT exactly the 5-byte fixed header is awaited in a buffer of at least 5 bytes; the handshake completes with success ONLY from a decodable CONNACK whose reason code is listed for CONNACK and equals 0 (or, with an authenticator, after its accepted final step); an undecodable CONNACK or a reason code not allowed in CONNACK -> malformed_packet, a refusal (>= 0x80) -> try_again, a failed read/write -> that error: in each case the stream is shut down and the operation completes with that non-success code (never success); AUTH packets are admitted only with a configured method, a listed AUTH reason code and the same method, and answered by one AUTH 0x18. exponential_backoff::generate returns 2^min(k,4)*1000 ms +-500 ms for its k-th call, hence always within [0.5 s, 16.5 s]; handshake framing (C19 unit). reconnect_op (every continuation): a handshake always races a timer armed for exactly 5 s before the race starts; a timed-out or failed handshake moves to the next resolved endpoint, else to the next broker, WITHOUT pause; a pause happens exactly when async_next_endpoint reports that the broker list wrapped around, and lasts the generated backoff; an unresolvable list completes with no_recovery; the new stream is swapped in exactly once, only after a successful handshake; resolve_op (endpoints): brokers are tried in list order (index + 1), resolution races a 5 s timer, a failed or timed-out resolution moves to the next broker, the end of the list is reported as try_again and restarts the list, representation invariant -1 <= _current_host < size preserved. NOT decided: 'no other packet before CONNACK' across the client (queued traffic gating is reconnect_op/async_sender ordering over schedules).",
    note="boost::random::uniform_smallint<>{-500,500} assumed to return a value in [-500,500]. control_packet::of(..., encode_connect, args) encodes the arguments it is given (encoder composition not verified, C17). cancellation_type values are symbolic distinct constants.",
    design='5 C10')
 CLAIMED['C03'] = dict(
@@ -109,7 +109,7 @@ CLAIMED['C04'] = dict(
 
 CLAIMED['C11'] = dict(
    category='other',
-   text="BOUNDED stand-in (waiting queue of at most 3 waiters quick / 6 thorough; each slot symbolic: live handler or emptied by per-operation cancellation): async_mutex -- lock() on a free mutex takes it and posts exactly one grant, on a held mutex appends the waiter at the back and grants nothing; unlock() hands the lock to the FIRST live waiter (emptied slots skipped), keeps _locked set across the hand-over, preserves the order of the waiters behind it, and releases the lock only when no live waiter is left; nobody is aborted by unlock; cancel() aborts every live waiter exactly once with operation_aborted, grants nobody and leaves the lock state alone; a per-operation cancellation signal (any type but none) aborts that waiter exactly once, empties its slot and never grants. Together: at most one holder at a time on these functions (the lock is granted only from unlock()/lock() while not held by anybody else). NOT decided: that every multi-buffer write goes through the mutex (write_op / reconnect_op callers not built), that the close/swap of the stream happens under the lock, executor re-entrancy, thread interleavings (strand assumed).",
+   text="BOUNDED stand-in (waiting queue of at most 3 waiters quick / 6 thorough; each slot symbolic: live handler or emptied by per-operation cancellation): async_mutex -- lock() on a free mutex takes it and posts exactly one grant, on a held mutex appends the waiter at the back and grants nothing; unlock() hands the lock to the FIRST live waiter (emptied slots skipped), keeps _locked set across the hand-over, preserves the order of the waiters behind it, and releases the lock only when no live waiter is left; nobody is aborted by unlock; cancel() aborts every live waiter exactly once with operation_aborted, grants nobody and leaves the lock state alone; a per-operation cancellation signal (any type but none) aborts that waiter exactly once, empties its slot and never grants. Together: at most one holder at a time on these functions (the lock is granted only from unlock()/lock() while not held by anybody else). PROVED on reconnect_op: it asks for the connection lock first; an aborted wait never unlocks what it does not hold; every other completion releases the lock exactly once and BEFORE the handler runs; the lock is held across host rotation, backoff and handshake; the stream swap (replace_next_layer) happens under the lock, before it is released. NOT decided: that every multi-buffer write goes through the mutex (write_op not built), that the close/swap of the stream happens under the lock, executor re-entrancy, thread interleavings (strand assumed).",
    note="A bounded check, never counted as proved. std::deque modelled as vector; tracked handler type erased to a non-null handle; bound executors (asio::post/dispatch + prepend) are recording stubs.",
    design='5 C11')
 
